@@ -113,3 +113,16 @@ Definition explain_load (c : env * opts * option str * option Z * list str * res
   | Ok (o1, f1), Ok (o2, f2) => inl (diff_opts o1 o2, f1, f2)
   | r, _ => inr r
   end.
+
+(* asyncssh.connect(): the (host, port) finally handed to the transport after the first and, when
+   requested, the final pass = Hostname option or the original name, Port option or 22 *)
+Definition chk_connect_target (c : env * option str * option Z * list str * option (str * Z)) : bool :=
+  let '(E, user, port, paths, got) := c in
+  match resolve_two_pass fuel E [] user port paths, got with
+  | Ok (os, _), Some (h, p) =>
+      let eh := match lookup (z "Hostname") os with Some (VStr s) => s | _ => e_host E end in
+      let ep := match lookup (z "Port") os with Some (VInt n) => n | _ => 22 end in
+      str_eqb eh h && (ep =? p)
+  | Err _, None => true
+  | _, _ => false
+  end.
